@@ -394,6 +394,8 @@ class ExprMixin(CallMixin):
             if isinstance(r, PyTuple) and isinstance(l, Const) and isinstance(l.v, tuple):
                 return PyTuple([Const(x) for x in l.v] + r.items)
             return Sym("binop", "+", l, r)
+        if isinstance(op, ast.BitAnd) and isinstance(l, Sym) and l.op == "set" and isinstance(r, Sym) and r.op == "set":
+            return Sym("setand", l, r)
         if isinstance(op, ast.Mult):
             # sequence repetition with a constant count
             for a, b in ((l, r), (r, l)):
